@@ -104,16 +104,21 @@ def remove_redundant_chained_calls(source: str) -> str:
     for node in core.walk(root, templates):
         # Only calls that are redundant under this particular outer call may be skipped
         inner_template = ast.Call(
-            func=ast.Name(id=tuple(outer_inner_redundancy_mapping[node.func.id])), args=[object]
+            func=ast.Name(id=tuple(outer_inner_redundancy_mapping[node.func.id])),
+            args=[object],
+            keywords=[],  # e.g. the key function of an inner sorted() is called for every element
         )
         arg = node.args[0]
-        while core.match_template(arg, inner_template):
+        while core.match_template(arg, inner_template) and not isinstance(
+            arg.args[0], ast.Starred
+        ):
             arg = arg.args[0]
-        yield node, ast.Call(func=node.func, args=[arg], keywords=[])
+        if arg is not node.args[0]:
+            yield node, ast.Call(func=node.func, args=[arg], keywords=node.keywords)
 
     # If inner is present, outer is redundant
     inner_outer_redundancy_mapping = {
-        "sorted": {"list", "sorted"},
+        "sorted": {"list"},  # sorted(sorted(x, key=f)) is not sorted(x, key=f); see above for sorted(sorted(x))
         "list": {"list"},
         "set": {"set"},
         "iter": {"iter"},
@@ -122,7 +127,9 @@ def remove_redundant_chained_calls(source: str) -> str:
 
     templates = tuple(
         ast.Call(
-            func=ast.Name(id=tuple(values)), args=[ast.Call(func=ast.Name(id=key), args=[object])]
+            func=ast.Name(id=tuple(values)),
+            args=[ast.Call(func=ast.Name(id=key), args=[object])],
+            keywords=[],
         )
         for key, values in inner_outer_redundancy_mapping.items()
     )
